@@ -21,6 +21,9 @@ const (
 	defaultMaxLoginLength = 32
 
 	defaultMinPasswordLength = 3
+
+	// The number of bytes of the password which bcrypt actually uses.
+	maxBcryptPasswordLength = 72
 )
 
 // Token suitable as a login: starts and ends with a Unicode letter (class L) or number (class N),
@@ -230,6 +233,12 @@ func (a *authenticator) Authenticate(secret []byte, remoteAddr string) (*auth.Re
 	if !expires.IsZero() && expires.Before(time.Now()) {
 		// The record has expired
 		return nil, nil, types.ErrExpired
+	}
+
+	if len(password) > maxBcryptPasswordLength {
+		// bcrypt ignores everything past the first 72 bytes and refuses to hash longer passwords:
+		// a longer password cannot be the one which was stored.
+		return nil, nil, types.ErrFailed
 	}
 
 	err = bcrypt.CompareHashAndPassword(passhash, []byte(password))
